@@ -6,7 +6,8 @@
 //!   begin mem max=<n> bytes=<n>|none policy=lru|lfu|fifo|random|ttl dttl=long|short
 //!   begin disk dttl=long|short
 //!   put <key> <hex> ev=…   putttl <key> <hex> long|short ev=…   get|contains|remove <key>
-//!   clear   size   stats   reopen   cleanup (memc only)
+//!   clear   size   stats   reopen   cleanup (memc / diskc only)
+//!   begin diskc … = DiskCache::new_with_background_tasks (cleanup_interval 2 ms, sync_interval 1 h).
 //!   begin memc …  = MemoryCache::new_with_cleanup (cleanup_interval 2 ms). The cache futures never
 //!   yield, so on the current-thread runtime the background task runs only while the harness
 //!   awaits: `cleanup` = await a real 12 ms sleep (>= 1 tick of the task), nothing else.
@@ -72,7 +73,7 @@ impl Cfg {
     fn line(&self) -> String {
         let d = if self.dshort { "short" } else { "long" };
         if self.disk {
-            format!("begin disk dttl={d}")
+            format!("begin {} dttl={d}", if self.cleanup { "diskc" } else { "disk" })
         } else {
             let b = self.bytes.map_or("none".to_string(), |b| b.to_string());
             format!("begin {} max={} bytes={} policy={} dttl={}", if self.cleanup { "memc" } else { "mem" }, self.max, b, pol_name(&self.policy), d)
@@ -96,9 +97,9 @@ impl Cfg {
                 let dshort = match kv(dt, "dttl=")?.as_str() { "short" => true, "long" => false, _ => return None };
                 Some(Cfg { disk: false, max, bytes, policy, dshort, cleanup: *m == "memc" })
             }
-            ["begin", "disk", dt] => {
+            ["begin", m @ ("disk" | "diskc"), dt] => {
                 let dshort = match kv(dt, "dttl=")?.as_str() { "short" => true, "long" => false, _ => return None };
-                Some(Cfg { disk: true, max: 0, bytes: None, policy: EvictionPolicy::Lru, dshort, cleanup: false })
+                Some(Cfg { disk: true, max: 0, bytes: None, policy: EvictionPolicy::Lru, dshort, cleanup: *m == "diskc" })
             }
             _ => None,
         }
@@ -204,7 +205,15 @@ impl Case {
             let mut dc = DiskCacheConfig::new(self.dir.as_ref().unwrap().path().join("cache"));
             dc = match self.sub { Some(l) => dc.with_subdirectories(true, l), None => dc.with_subdirectories(false, 0) };
             dc.default_ttl = Some(if self.cfg.dshort { SHORTS[3] } else { LONG });
-            self.cache = Some(Cache::Disk(DiskCache::new(dc).map_err(|_| ())?));
+            let c = if self.cfg.cleanup {
+                dc.cleanup_interval = CLEANUP_INTERVAL;
+                dc.sync_interval = LONG; // its first tick still runs `sync` once per instance
+                let _g = self.rt.enter();
+                DiskCache::new_with_background_tasks(dc)
+            } else {
+                DiskCache::new(dc)
+            };
+            self.cache = Some(Cache::Disk(c.map_err(|_| ())?));
         } else {
             let mut mc = MemoryCacheConfig::new().with_max_entries(self.cfg.max).with_eviction_policy(self.cfg.policy.clone());
             mc.max_memory_bytes = self.cfg.bytes;
@@ -439,6 +448,16 @@ impl Case {
                 self.emit(s, "cleanup".into(), "ok".into());
                 self.nontrivial.insert("cleanup");
                 // O: after a tick of the cleanup task no ended-TTL entry is left in the cache
+                if disk {
+                    // entries this instance indexed with an ended TTL are gone from index and directory;
+                    // `figures` below then demands exact counters (a drift is a violation)
+                    let ep = self.epoch;
+                    let pending: Vec<usize> = self.refmap.iter().filter(|(_, e)| e.short && e.epoch == ep).map(|(k, _)| *k).collect();
+                    if !pending.is_empty() { self.nontrivial.insert("cleanup-swept"); }
+                    for k in pending { self.refmap.remove(&k); }
+                    self.figures(s, true);
+                    return;
+                }
                 let pending: Vec<usize> = self.refmap.iter().filter(|(_, e)| e.short).map(|(k, _)| *k).collect();
                 if !pending.is_empty() {
                     let n = self.n_size();
@@ -569,7 +588,7 @@ fn gen_case(rng: &mut Rng, s: &mut Session, disk: bool, nops: usize) {
         bytes: if disk { None } else { *rng.pick(&byts) },
         policy: if disk { EvictionPolicy::Lru } else { rng.pick(&pols).clone() },
         dshort: rng.chance(1, 8),
-        cleanup: !disk && rng.chance(1, 4),
+        cleanup: if disk { rng.chance(1, 5) } else { rng.chance(1, 4) },
     };
     let sub = if disk && rng.chance(1, 2) { Some(rng.range(1, 2) as usize) } else { None };
     // key population: usually larger than the capacity
@@ -697,6 +716,12 @@ fn directed(s: &mut Session) {
             "put 5 01 ev=auto", "put 6 02 ev=auto", "put 7 03 ev=auto", "put 8 04 ev=auto", "putttl 9 05 short ev=auto", "cleanup", "size", "get 9", "get 8"].iter().map(|x| x.to_string()).collect();
         run_script(s, &sc);
     }
+    for d in ["long", "short"] {
+        let sc: Vec<String> = [&format!("begin diskc dttl={d}")[..], "cleanup", "putttl 1 aabbcc short ev=auto", "put 2 0102 ev=auto", "putttl 3 - short ev=auto",
+            "cleanup", "size", "stats", "get 1", "get 2", "get 3", "putttl 4 0708 long ev=auto", "putttl 2 09 short ev=auto", "reopen", "cleanup", "get 2", "get 4",
+            "putttl 5 0a0b short ev=auto", "cleanup", "cleanup", "stats", "get 5", "contains 5", "size"].iter().map(|x| x.to_string()).collect();
+        run_script(s, &sc);
+    }
     run_script(s, &["begin mem max=3 bytes=none policy=lru dttl=long".to_string(), "cleanup".to_string()]);
     run_script(s, &["begin disk dttl=long".to_string(), "cleanup".to_string()]);
     // configuration validation: the whole small grid
@@ -734,7 +759,7 @@ fn main() {
     let args = Args::parse();
     quiet_panics();
     let mut s = Session::new(&args.out);
-    s.rule = "seeded histories of put / put_with_ttl / get / contains / remove / clear / size / stats (+ reopen for the disk cache) over all five eviction policies, max_entries 1..30, max_memory_bytes none/1/2/10/40/100/300/1000, value sizes 0 .. above the byte limit, key populations above capacity, TTL classes long (1 h) / short (0 ns–1 ms followed by a real sleep > 3×TTL); evaluations = histories; non-trivial = the history reached an eviction, an expiry sweep, a short TTL or a reopen; distinct = canonical request text of the whole history".into();
+    s.rule = "seeded histories of put / put_with_ttl / get / contains / remove / clear / size / stats (+ reopen for the disk cache) over all five eviction policies, max_entries 1..30, max_memory_bytes none/1/2/10/40/100/300/1000, value sizes 0 .. above the byte limit, key populations above capacity, TTL classes long (1 h) / short (0 ns–1 ms followed by a real sleep > 3×TTL); a quarter of the memory histories on MemoryCache::new_with_cleanup with ticks of the background task (`cleanup`); stats() compared in five figures (entries, bytes, get / hit / miss counts); plus the grid of MemoryCacheConfig / DiskCacheConfig::validate inputs; evaluations = histories; non-trivial = the history reached an eviction, an expiry sweep, a short TTL, a reopen or a cleanup tick; distinct = canonical request text of the whole history".into();
     let mut rng = Rng::new(args.seed);
 
     if let Some(p) = &args.replay {
